@@ -36,7 +36,7 @@ fn main() {
     let mut mode = String::new();
     let mut scale = 1.0f64;
     let mut hb: Option<String> = None;
-    let mut mem_mb = 6144u64;
+    let mut mem_mb = 3072u64;
     let mut pos: Vec<String> = Vec::new();
     let mut i = 2;
     while i < args.len() {
